@@ -200,6 +200,22 @@ def chunk_job(job):
             i = _first_diff(a, b)
             if i < 0:
                 continue
+            if len(a) == len(b):
+                # aligned traces (same tag sequence): every differing tag is meaningful, report each
+                # once per program; otherwise (a panic or another category shifted the sequence) only
+                # the first difference is
+                ta = [l.split(" ", 2)[1] for l in a]
+                if ta == [l.split(" ", 2)[1] for l in b]:
+                    seen = set()
+                    for j in range(i, len(a)):
+                        if a[j] != b[j] and ta[j] not in seen:
+                            seen.add(ta[j])
+                            if ta[j] == "zz.inputs":
+                                res["inconclusive"].append(f"harness inputs differ between {REF} and {name} in program {prog}: {a[j]!r} vs {b[j]!r}")
+                                return res
+                            viol(f"C19/E-line-differs/{_sigtag(ta[j])}/{REF}-vs-{name}",
+                                 f"seed={seed} program={prog} line {j} of the program's E trace: {REF}: {a[j]!r}  {name}: {b[j]!r}  (preceding: {' | '.join(a[max(0, j - 2):j])})", prog)
+                    continue
             la = a[i] if i < len(a) else "<end of program trace>"
             lb = b[i] if i < len(b) else "<end of program trace>"
             tag = (la if i < len(a) else lb).split(" ", 2)[1]
